@@ -1404,6 +1404,17 @@ package stun
 //@   ensures !old(c.closed) && old(haskey(c.t, t.id)) ==> result == ErrTransactionExists && SameClientTable(c)
 //@   ensures !old(c.closed) && !old(haskey(c.t, t.id)) ==> result == nil && haskey(c.t, t.id) && c.t[t.id] == t && TableExcept(c, t.id)
 
+// unregister: remove t only if it is still what is registered under id (the caller then owns t exclusively again)
+//@ func (*Client).unregister(c, id, t)
+//@   safety C10 C12 C15
+//@   props C10 C12
+//@   requires ClientInv(c)
+//@   assigns mem(c.t), gmap(held)[region(c)]
+//@   ensures ClientInv(c) && c.closed == old(c.closed) && TableExcept(c, id)
+//@   ensures result <==> old(haskey(c.t, id) && c.t[id] == t)
+//@   ensures result ==> !haskey(c.t, id)
+//@   ensures !result ==> SameClientTable(c)
+
 //@ func (*Client).delete(c, id)
 //@   safety C10 C15
 //@   props C10
